@@ -29,7 +29,7 @@ def parse_path_functions(repo):
     for q, fi in lexm.functions.items():
         if fi.name == '__init__':
             continue
-        if fi.cls is not None and fi.parent_func is None:
+        if fi.is_method:
             if fi.name.startswith('t_'):
                 out.append((fi, 'token'))
             continue
@@ -88,7 +88,7 @@ def per_call_params(fi, role):
     if role == 'init':
         return set(pos)      # `self` is the object under construction
     shared = set()
-    if fi.cls is not None and fi.parent_func is None and not any(
+    if fi.is_method and not any(
             isinstance(d, ast.Name) and d.id == 'staticmethod'
             for d in fi.node.decorator_list):
         shared = set(pos[:1])
